@@ -128,4 +128,88 @@ theorem c02p_rRelinOK : c02p_RelinOK c02p_rKL c02p_wL1.size c02p_rKey (c02p_sk c
     revert i p
     decide
 
+
+/-! ### the program relin(x0·x1) at the level {97, 113} -/
+
+def c02p_rChain (_ : Nat) : Level := c02p_wL1
+def c02p_rCts (i : Nat) : Nat × Ct := (0, if i = 0 then c02p_exCt0 else c02p_exCt1)
+def c02p_rProg : LProg := .relin (.mul (.inp 0) (.inp 1))
+
+theorem c02p_rChainOK : c02p_ChainOK c02p_rChain 0 := by
+  refine ⟨fun c _ => (c02p_wLevelOK c02p_wL1_mk).1, fun c _ => (c02p_wLevelOK c02p_wL1_mk).2.1, fun c h0 hc => ?_, fun c hc => ?_⟩
+  · omega
+  · omega
+
+theorem c02p_rGood (i : Nat) : c02p_Good c02p_wL1 (c02p_rCts i).2 := by
+  have hc : ∀ p ∈ [c02p_exCt0.polys.getD 0 #[], c02p_exCt0.polys.getD 1 #[], c02p_exCt1.polys.getD 0 #[], c02p_exCt1.polys.getD 1 #[]],
+      RnsCanon c02p_wL1 p := by
+    intro p hp
+    simp only [List.mem_cons, List.mem_nil_iff, or_false] at hp
+    rcases hp with rfl | rfl | rfl | rfl <;> (unfold RnsCanon; decide +kernel)
+  have hs : c02p_wL1.scheme = .bgv := (mkLevel_ok c02p_wL1_mk).2.2.2.2.1
+  have hcf : c02v_cfOk c02p_wL1 1 := by
+    unfold c02v_cfOk
+    rw [hs]
+    simp only
+    rw [c02p_rFacts.2.2.2.1]
+    decide
+  have hun : Nat.Coprime 1 c02p_wL1.t.value := Nat.coprime_one_left _
+  unfold c02p_rCts
+  dsimp only
+  split
+  · refine ⟨⟨⟨Nat.le_refl 2, (by decide : 2 ≤ 16), fun k hk => ?_⟩, hcf⟩, rfl, hun⟩
+    have hk' : k < 2 := hk
+    interval_cases k
+    · exact hc _ (by simp)
+    · exact hc _ (by simp)
+  · refine ⟨⟨⟨Nat.le_refl 2, (by decide : 2 ≤ 16), fun k hk => ?_⟩, hcf⟩, rfl, hun⟩
+    have hk' : k < 2 := hk
+    interval_cases k
+    · exact hc _ (by simp)
+    · exact hc _ (by simp)
+
+theorem c02p_rPhase : ∀ i, i < 2 → ∀ j, j < 4 →
+    c02p_ph c02p_wL1 c02p_wSk (c02p_rCts i).2 j = ((c02p_rCts i).2.cf : Int) * c02p_exM i j + 17 * c02p_exE i j := by decide +kernel
+
+theorem c02p_rEnc (i : Nat) (hi : i < 2) : c02p_Enc c02p_wL1 c02p_wSk (c02p_rCts i).2 (c02p_exM i) 20 := by
+  have h := c02p_enc_of_fresh (sk := c02p_wSk) (c02p_rGood i) (c02p_exM i) (c02p_exE i) 3 1
+    (fun j hj => by rw [c02p_rFacts.2.2.1] at hj; rw [c02p_rFacts.2.2.2.1]; exact c02p_rPhase i hi j hj)
+    (fun j hj => by rw [c02p_rFacts.2.2.1] at hj; revert i j; decide)
+    (fun j hj => by rw [c02p_rFacts.2.2.1] at hj; revert i j; decide)
+  have hcf : (c02p_rCts i).2.cf = 1 := by interval_cases i <;> rfl
+  rw [hcf, c02p_rFacts.2.2.2.1] at h
+  exact h
+
+def c02p_rR : Nat × Ct := (c02p_rProg.eval c02p_rChain c02p_rKL c02p_rKey c02p_rCts (fun _ => (0, #[]))).toOption.getD default
+theorem c02p_rEval : c02p_rProg.eval c02p_rChain c02p_rKL c02p_rKey c02p_rCts (fun _ => (0, #[])) = .ok c02p_rR :=
+  nv_ok_of_isOk default (by decide +kernel)
+theorem c02p_rR_val : (c02p_rR.1, c02p_rR.2.polys.size, c02p_rR.2.cf) = (0, 2, 1) := by decide +kernel
+
+/-- bookkeeping: product 4·20·20 = 1600, relinearisation ⌊(2·113·4·17 + 193·17·(1 + 3)) / 193⌋ = 147 -/
+theorem c02p_rUB : c02p_rProg.noiseUB c02p_rChain c02p_rKL 113 17 3 (fun _ => (0, 1, 2, 20)) (fun _ => (0, 0)) = some (0, 1, 2, 1747) := by
+  decide +kernel
+
+/-- NON-VACUITY of the relinearisation hypotheses of `hom_program_bgv_levelled` -/
+theorem hom_program_bgv_relin_example :
+    bgvDecrypt (c02p_rChain c02p_rR.1) c02p_wSk c02p_rR.2 =
+      .ok (Spec.trim (Array.ofFn (n := (c02p_rChain c02p_rR.1).n) fun j =>
+        Spec.imod (c02p_rProg.shadow (c02p_rChain 0).n c02p_exM (fun _ _ => 0) j.val) (c02p_rChain c02p_rR.1).t.value)) :=
+  hom_program_bgv_levelled c02p_rChainOK (sk := c02p_wSk) (by rw [show c02p_rChain 0 = c02p_wL1 from rfl, c02p_rFacts.2.2.1]; rfl)
+    (S := 3) (by rw [show c02p_rChain 0 = c02p_wL1 from rfl, c02p_rFacts.2.2.1]; decide)
+    c02p_rKL c02p_rKey c02p_rE c02p_rG 113 17
+    c02p_rCts (fun _ => (0, #[])) c02p_exM (fun _ _ => 0) (fun _ => (0, 1, 2, 20)) (fun _ => (0, 0)) c02p_rProg
+    (fun _ c _ => ⟨c02p_rKeyLevelOf, c02p_rRelinOK⟩)
+    (fun i hi => by
+      have hi2 : i < 2 := by
+        simp [c02p_rProg, LProg.ctInputs] at hi
+        omega
+      refine ⟨Nat.le_refl 0, c02p_rEnc i hi2, ?_⟩
+      interval_cases i <;> rfl)
+    (fun k hk => by simp [c02p_rProg, LProg.plInputs] at hk)
+    (lv := c02p_rR.1) (r := c02p_rR.2) c02p_rEval (st := (0, 1, 2)) c02p_rUB (by decide +kernel)
+
+/-- … evaluated: m0·m1 mod (X^4 + 1, 17) = (1, 5, 14, 16) -/
+theorem hom_program_bgv_relin_example_val :
+    (bgvDecrypt (c02p_rChain c02p_rR.1) c02p_wSk c02p_rR.2).toOption = some #[1, 5, 14, 16] := by decide +kernel
+
 end HC
